@@ -1199,3 +1199,75 @@ Proof.
   intros Wd Wb P. rewrite (evaluate_overlay_is_merge en spec ov base Wd Wb P).
   unfold ref_overlay. destruct (ev_tree _ _); discriminate.
 Qed.
+
+(* ====================================================================== *)
+(* applying the same value-level overlay twice changes nothing             *)
+(* (the forced overlay is applied to the template and again after the      *)
+(*  overlays — and a third time on create)                                 *)
+(* ====================================================================== *)
+
+Lemma merge_keys_fixed b fs :
+  NoDup (keys b) ->
+  (forall k, In k (keys fs) -> In k (keys b)) ->
+  (forall k bv f, In (k, bv) b -> lookup k fs = Some f -> f bv = bv) ->
+  merge_keys b fs = b.
+Proof.
+  intros ND Hin Hfix. rewrite merge_keys_alt.
+  assert (filter (fun kf : string * (json -> json) => negb (mem_str (fst kf) (keys b))) fs = []) as ->.
+  { clear Hfix. induction fs as [|[k f] fs IH]; [reflexivity|]. simpl.
+    assert (mem_str k (keys b) = true) as -> by (apply mem_str_In, Hin; now left).
+    simpl. apply IH. intros k' H. apply Hin. now right. }
+  simpl. rewrite app_nil_r. rewrite <- (map_id b) at 2. apply map_ext_in.
+  intros [k bv] Hb. simpl. destruct (lookup k fs) as [f|] eqn:L; [|reflexivity].
+  now rewrite (Hfix k bv f Hb L).
+Qed.
+
+Lemma merge_val_self o : wf o = true -> merge_val o o = o.
+Proof.
+  induction o as [| | | | | |om IH] using json_ind'; intros W; try reflexivity.
+  apply wf_map_iff in W. destruct W as [ND W].
+  rewrite merge_val_map. f_equal. apply merge_keys_fixed; auto.
+  - intros k. now rewrite keys_map_fst.
+  - intros k bv f Hb L. rewrite lookup_map_snd in L.
+    rewrite (In_lookup _ _ _ ND Hb) in L. simpl in L. injection L as <-.
+    rewrite Forall_forall in IH, W. exact (IH _ Hb (W _ Hb)).
+Qed.
+
+Lemma merge_val_idem o : wf o = true -> forall b, wf b = true ->
+  merge_val o (merge_val o b) = merge_val o b.
+Proof.
+  induction o as [| | | | | |om IH] using json_ind'; intros W bv Wb; try reflexivity.
+  destruct bv as [| | | | | |bm];
+    try (match goal with
+         | |- merge_val ?o (merge_val ?o ?x) = _ =>
+             rewrite (merge_val_nonmap o x) by (right; discriminate)
+         end; now apply merge_val_self).
+  pose proof (wf_merge_val _ W _ Wb) as Wr.
+  apply wf_map_iff in W. destruct W as [ND W].
+  rewrite (merge_val_map om bm) in *. rewrite merge_val_map. f_equal.
+  set (fs := map (fun kv : string * json => (fst kv, merge_val (snd kv))) om) in *.
+  apply wf_map_iff in Wr. destruct Wr as [NDr _].
+  apply merge_keys_fixed; auto.
+  - intros k Hk. rewrite keys_merge_keys. apply in_app_iff.
+    destruct (in_dec string_dec k (keys bm)) as [H|H]; [now left|right].
+    apply filter_In. split; [exact Hk|]. now apply Bool.negb_true_iff, mem_str_false.
+  - intros k rv f Hr L.
+    apply (In_lookup _ _ _ NDr) in Hr. rewrite lookup_merge_keys, L in Hr.
+    subst fs. rewrite lookup_map_snd in L.
+    destruct (lookup k om) as [v|] eqn:Lo; [|discriminate]. simpl in L. injection L as <-.
+    apply lookup_In in Lo. rewrite Forall_forall in IH, W.
+    destruct (lookup k bm) as [x|] eqn:Lb.
+    + injection Hr as <-. apply (IH _ Lo (W _ Lo)).
+      apply wf_map_iff in Wb. destruct Wb as [_ Wb]. rewrite Forall_forall in Wb.
+      exact (Wb _ (lookup_In _ _ _ Lb)).
+    + simpl in Hr. injection Hr as <-. now apply (IH _ Lo (W _ Lo)).
+Qed.
+
+Theorem forced_merge_idem forced m :
+  wf (JMap forced) = true -> wf (JMap m) = true ->
+  forced_merge forced (forced_merge forced m) = forced_merge forced m.
+Proof.
+  intros Wf Wm. unfold forced_merge.
+  rewrite (merge_val_map forced m) at 1. cbn [as_map]. rewrite <- (merge_val_map forced m).
+  rewrite merge_val_idem by auto. reflexivity.
+Qed.
